@@ -57,6 +57,8 @@ def enc_op(o):
         return "m.%d" % o[1]
     if k == "p":
         return "p.%d.%s" % (2 * o[1] + 3, enc_script(o[2]))
+    if k == "crash":
+        return "x.%d.%d.%s" % (o[2], o[3], nl(o[1]))
     if k == "redo":
         return "c.redo.%d.%s" % (1 if o[2] else 0, nl(o[1]))
     if k == "ifc":
@@ -72,8 +74,11 @@ def render_script(case, v, s):
         L.append("redo-always")
     if s.get("ifcreate"):
         L.append("redo-ifcreate " + " ".join(N[f] for f in s["ifcreate"]))
-    for c in s.get("ifchange", []):
+    crash = 'if [ "$VERIF_CRASH_AT" = "$1:%d" ]; then kill -9 0; sleep 5; fi'
+    for kk, c in enumerate(s.get("ifchange", [])):
+        L.append(crash % kk)
         L.append("redo-ifchange " + " ".join(N[f] for f in c))
+    L.append(crash % len(s.get("ifchange", [])))
     if s.get("failIfOdd") is not None:
         f = N[s["failIfOdd"]]
         L.append('if [ -e %s ]; then tok=$(cat %s); case "$tok" in *[!0-9]*) ;; *) if [ "$tok" -ge 3 ] && [ $(( tok %% 2 )) = 1 ] && [ $(( (tok - 3) / 2 %% 2 )) = 1 ]; then exit 1; fi;; esac; fi' % (f, f))
@@ -198,7 +203,11 @@ def run_real(case, keep=False, extra_env=None):
                 progs[o[1]] = o[2]
             else:
                 open(trace, "w").close()
-                if k == "redo":
+                crash_env = {}
+                if k == "crash":
+                    argv = ["redo-ifchange"] + [case.names[t] for t in o[1]]
+                    crash_env = {"VERIF_CRASH_AT": "%s:%d" % (case.names[o[2]], o[3])}
+                elif k == "redo":
                     argv = ["redo"] + (["-k"] if o[2] else []) + [case.names[t] for t in o[1]]
                 elif k == "ifc":
                     argv = ["redo-ifchange"] + [case.names[t] for t in o[1]]
@@ -206,7 +215,7 @@ def run_real(case, keep=False, extra_env=None):
                         env2 = dict(env, REDO_KEEP_GOING="1")
                 else:
                     argv = ["redo-" + k]
-                rc, out, err = pr.run(argv, env=dict(env, REDO_KEEP_GOING="1") if (k == "ifc" and o[2]) else env, timeout=120)
+                rc, out, err = pr.run(argv, env=dict(env, REDO_KEEP_GOING="1") if (k == "ifc" and o[2]) else dict(env, **crash_env), timeout=120)
                 ids = {n: i for i, n in case.names.items()}
                 ran = [str(ids.get(l, "?" + l)) for l in open(trace).read().split("\n") if l]
                 warn = [str(ids.get(m, "?" + m)) for m in re.findall(r"@@ (\S+) - you modified it; skipping", err)]
